@@ -78,7 +78,10 @@ def run(ctx):
     n3 = c02.validate_runs(ctx, vlib.read_ndjson(rp), "rand_merge")
     log(f"[T] random histories with the merge-any-two policy: {n3} accepted")
 
-    # recorded finding F6: explicit merge of uncommitted segments with a delete between them
+    # explicit merge of UNCOMMITTED segments with a delete between them (finding F6, repaired): the model with the
+    # repaired target (a fresh stamp) keeps PublishedIsSequential, the old target (commit opstamp) must violate it
+    vlib.mc_check(ctx, "MC_Core", "MC_Core_f6.cfg", timeout=600)
+    vlib.mc_check(ctx, "MC_Core", "MC_Core_negF6.cfg", expect_violation="PublishedIsSequential", timeout=300)
     hp = ctx.path("f6.ndjson")
     vlib.write_ndjson(hp, [{"cfg": {"threads": 1, "flush_after": 1, "merge": "none"}, "tag": "F6", "ops": [
         {"op": "add", "id": 1, "t": "a", "v": 0}, {"op": "wait_uncommitted", "n": 1}, {"op": "del", "pred": {"k": "term", "t": "a"}},
